@@ -1,4 +1,5 @@
 import LyModel.Ctx.LemmasFinal
+import LyModel.Ctx.Examples
 /-!
 # C09 — a failed schema operation leaves the context as it was
 
@@ -25,6 +26,21 @@ structure Quiescent (s : Ctx) : Prop where
   keys : (s.mods.map (·.key)).Nodup
   flags : ∀ m ∈ s.mods, m.toCompile = true → m.implemented = true
   lrefs : s.LrefClosed
+
+/-- executable form of `Quiescent`, for concrete contexts -/
+def quiescentB (s : Ctx) : Bool :=
+  s.creating.isEmpty && s.implementing.isEmpty && decide ((s.mods.map (·.key)).Nodup) &&
+  s.mods.all (fun m => !m.toCompile || m.implemented) && lrefClosedB (s.mods.map Mod.core)
+
+theorem Quiescent.ofB {s : Ctx} (h : quiescentB s = true) : Quiescent s := by
+  simp only [quiescentB, Bool.and_eq_true, List.isEmpty_iff, decide_eq_true_eq, List.all_eq_true, Bool.or_eq_true,
+    Bool.not_eq_true'] at h
+  obtain ⟨⟨⟨⟨h1, h2⟩, h3⟩, h4⟩, h5⟩ := h
+  refine ⟨h1, h2, h3, ?_, lrefClosed_of_B h5⟩
+  intro m hm ht
+  rcases h4 m hm with h | h
+  · rw [ht] at h; cases h
+  · exact h
 
 /-- the operation's `features` argument -/
 abbrev featArg := Op.featArg
@@ -122,5 +138,123 @@ theorem failed_op_restores_partial (s : Ctx) (op : Op) (e : Nat) (s' : Ctx) (hq 
           exact (restoredCore_mask _ k m).symm
         rw [← this]; exact hk
       exact revert_cores hq.noCreating hq.noImplementing hq.lrefs hk'
+
+/-! ### non-vacuity, and where the full statement fails -/
+
+open LyModel.Ctx.Ex
+
+private theorem run_eq_error {s : Ctx} {op : Op} {e : Nat} (h : rc (run s op).1 = e + 1) :
+    run s op = (.error (e + 1), (run s op).2) := by
+  cases hr : run s op with
+  | mk r t =>
+    rw [hr] at h
+    cases r with
+    | ok u => simp [rc] at h
+    | error e' => simp only [rc] at h; rw [h]
+
+def isOk (r : Except Nat Unit) : Bool := match r with
+  | .ok _ => true
+  | .error _ => false
+
+private theorem run_eq_ok {s : Ctx} {op : Op} (h : isOk (run s op).1 = true) : run s op = (.ok (), (run s op).2) := by
+  cases hr : run s op with
+  | mk r t =>
+    rw [hr] at h
+    cases r with
+    | ok u => rfl
+    | error e' => simp [isOk] at h
+
+/-- `aaa` implemented and compiled -/
+def sA : Ctx := (run (ctx0 [A]) (.parse A none)).2
+
+/-- a failing call in a quiescent context with a NULL features argument exists (a module whose default value is refused,
+    importing and augmenting `aaa`): the hypotheses of the theorem are satisfiable, its conclusion is not trivial (the
+    call had added `bbb` to the context and recompiled `aaa`) -/
+example : Quiescent sA ∧ rc (run sA (.parse Bbad none)).1 = 7 ∧ featArg (.parse Bbad none) = none ∧
+    (forward (.parse Bbad none) sA).2.mods.length = 2 := by
+  refine ⟨Quiescent.ofB (by decide +kernel), by decide +kernel, rfl, by decide +kernel⟩
+
+/-- **The statement as given is false (F4).**  `lys_set_implemented(aaa, {"f2"})` on the implemented module `aaa`
+    (`f2` depends on `f1`) fails with LY_EDENIED and leaves `f2` enabled: `lys_set_features` flips the flags in place
+    before anything can fail, and the module is in neither `creating` nor `implementing`. -/
+theorem failed_op_restores_fails :
+    ¬ ∀ (s : Ctx) (op : Op) (e : Nat) (s' : Ctx), Quiescent s → run s op = (.error e, s') →
+        ObsCore s' = ObsCore s ∧ s'.modulesHash = s.modulesHash := by
+  intro h
+  have hq : Quiescent sA := Quiescent.ofB (by decide +kernel)
+  have hr := run_eq_error (s := sA) (op := .setImpl (bs "aaa", []) (some [bs "f2"])) (e := 7) (by decide +kernel)
+  have := (h _ _ _ _ hq hr).1
+  revert this
+  decide +kernel
+
+/-- the same through `lys_implement`: a module that is only imported keeps the flipped feature although it is made
+    non-implemented again (F4, second form) -/
+theorem failed_implement_keeps_features :
+    ∃ (s : Ctx) (op : Op) (e : Nat) (s' : Ctx), Quiescent s ∧ run s op = (.error e, s') ∧ ObsCore s' ≠ ObsCore s ∧
+      s'.mods.map (·.implemented) = s.mods.map (·.implemented) :=
+  let s := (run (ctx0 [A, Top]) (.parse Top none)).2
+  let op : Op := .setImpl (bs "aaa", []) (some [bs "f2"])
+  ⟨s, op, 8, (run s op).2, Quiescent.ofB (by decide +kernel), run_eq_error (e := 7) (by decide +kernel),
+    by decide +kernel, by decide +kernel⟩
+
+/-- **F51.**  Without `Quiescent`: in an explicit-compile context a failed `lys_parse` also removes the modules that
+    earlier, successful calls added since the last `ly_ctx_compile` (they are all in `unres.creating`). -/
+theorem pending_batch_dropped :
+    ∃ (s : Ctx) (op : Op) (e : Nat) (s' : Ctx), (s.mods.map (·.key)).Nodup ∧ run s op = (.error e, s') ∧
+      s.mods.length = 1 ∧ s'.mods.length = 0 :=
+  let s := (run (ctx0 [A] true) (.parse A none)).2
+  let op : Op := .parse Bsyntax none
+  ⟨s, op, 7, (run s op).2, by decide +kernel, run_eq_error (e := 6) (by decide +kernel),
+    by decide +kernel, by decide +kernel⟩
+
+/-- **F50.**  `latest_revision` is outside `ObsCore` for a reason: a newer revision that fails after it was added to the
+    context takes LYS_MOD_LATEST_REV away from the previous latest revision for good (`ly_ctx_get_module_latest` = NULL). -/
+theorem latest_flag_not_restored :
+    ∃ (s : Ctx) (op : Op) (e : Nat) (s' : Ctx), Quiescent s ∧ run s op = (.error e, s') ∧
+      (s.getLatest (bs "aaa")).isSome = true ∧ (s'.getLatest (bs "aaa")).isSome = false :=
+  let s := (run (ctx0 [A19]) (.parse A19 none)).2
+  let op : Op := .parse A20late none
+  ⟨s, op, 7, (run s op).2, Quiescent.ofB (by decide +kernel), run_eq_error (e := 6) (by decide +kernel),
+    by decide +kernel, by decide +kernel⟩
+
+/-- **F24.**  `data_stays_usable` is false: the failed load of a module that augments the implemented module `aaa`
+    recompiles `aaa` twice (with the augment, then without it); the compiled nodes live data points to are gone. -/
+theorem data_stays_usable_fails :
+    ¬ ∀ (s : Ctx) (op : Op) (e : Nat) (s' : Ctx), Quiescent s → run s op = (.error e, s') →
+        s'.mods.map (fun m => m.compiled.map (·.1)) = s.mods.map (fun m => m.compiled.map (·.1)) := by
+  intro h
+  have hq : Quiescent sA := Quiescent.ofB (by decide +kernel)
+  have hr := run_eq_error (s := sA) (op := .parse Bbad none) (e := 6) (by decide +kernel)
+  have := h _ _ _ _ hq hr
+  revert this
+  decide +kernel
+
+/-- what a caller does later: `aaa@2020-01-01` appears in the repository and is loaded, then the correct module `ccc`
+    (dateless import + augment of `aaa`) is parsed -/
+def laterLoad (t : Ctx) : Except Nat Unit × Ctx :=
+  run (run { t with repo := t.repo ++ [A20] } (.load (bs "aaa") (some (bs "2020-01-01")) none)).2 (.parse C none)
+
+/-- **F52.**  "A later load of a correct module behaves as if the failed attempt never happened" is false: the failed
+    call leaves LYS_MOD_IMPORTED_REV on `aaa@2019-01-01`; after `aaa@2020-01-01` has been loaded and implemented, the
+    correct module `ccc` loads from the untouched context and is refused (LY_EDENIED) from the one that saw the failed
+    attempt — although both show the same modules, flags and features. -/
+theorem later_load_differs :
+    ∃ (s : Ctx) (op : Op) (e : Nat) (s' : Ctx), Quiescent s ∧ run s op = (.error e, s') ∧ ObsCore s' = ObsCore s ∧
+      rc (laterLoad s).1 = 0 ∧ rc (laterLoad s').1 = 8 :=
+  let s := (run (ctx0 [A19, X]) (.parse X none)).2
+  let op : Op := .parse Bbad none
+  ⟨s, op, 7, (run s op).2, Quiescent.ofB (by decide +kernel), run_eq_error (e := 6) (by decide +kernel),
+    by decide +kernel, by decide +kernel, by decide +kernel⟩
+
+/-- **F54.**  A *successful* call can leave a half-parsed module behind: looking for a newer revision for a dateless
+    import, `lys_parse_load_from_clb_or_file` ignores the failure of `lys_parse_in`, but the module had already been
+    added to the context (and nothing reverts, because the call as a whole succeeds). -/
+theorem nested_failure_leaves_debris :
+    ∃ (s : Ctx) (op : Op) (s' : Ctx), Quiescent s ∧ run s op = (.ok (), s') ∧ (s.mods.all fun m => !m.broken) = true ∧
+      (s'.mods.any fun m => m.broken) = true :=
+  let s := (run (ctx0 [A19, X, A20late, Top]) (.parse X none)).2
+  let op : Op := .parse Top none
+  ⟨s, op, (run s op).2, Quiescent.ofB (by decide +kernel), run_eq_ok (by decide +kernel),
+    by decide +kernel, by decide +kernel⟩
 
 end LyModel.Props.C09
